@@ -201,8 +201,19 @@ class PlanOracle:
             ctx.probe("block-spans-two-boundaries")
         self.cursor += new
         self.nblocks += 1
+        self.last = (blk, exp, a, n)  # the view the consumer still holds until this generator is resumed
         ctx.probe("compared-block")
         ctx.log("blk", self.nblocks - 1, int(ii), n, zlib.crc32(np.ascontiguousarray(blk).tobytes()))
+
+    def recheck(self, why) -> None:
+        """The block last yielded must stay intact until ITS generator is resumed - whatever else
+        happens in the process (another reader advancing, another API call)."""
+        if getattr(self, "last", None) is None:
+            return
+        blk, exp, a, n = self.last
+        if not _same(blk, exp):
+            raise self.viol("held-block-clobbered", f"block covering [{a},{a + n}) changed while the consumer held it ({why})")
+        self.ctx.probe("held-block-rechecked")
 
     def exhausted(self) -> None:
         if self.cursor != self.nsamps:
@@ -366,8 +377,11 @@ def execute(sc, ctx) -> None:
                         arr[0::nchans] = 1
                         ctx.probe("K2")
                     if gen_b is not None:
+                        orc_b.recheck("reader A advanced")
                         try:
                             orc_b.block(next(gen_b))
+                            if op["consumer"] == "plain":
+                                oracle.recheck("the second reader advanced")
                         except StopIteration:
                             gen_b = None
                         except Violation:
